@@ -144,8 +144,10 @@ Definition read_shdrs (alim : N) (f : file) (be is64 : bool) (shnum entsz : N) (
   end.
 
 (** ** init_strtab *)
-Definition init_strtab (alim : N) (f : file) (sects : list section) (idx : N) : res (option chunk) :=
-  if (idx =? 0) || (N.of_nat (length sects) <=? idx) then Ok None
+Definition init_strtab (alim : N) (f : file) (nsects : N) (sects : list section) (idx : N)
+  : res (option chunk) :=
+  (* [nsects] is [edp->num_sections], the number of elements of [sects] *)
+  if (idx =? 0) || (nsects <=? idx) then Ok None
   else
     match nth_error sects (N.to_nat idx) with
     | None => OOB
@@ -197,7 +199,7 @@ Definition init_elf (alim : N) (f : file) (be is64 : bool) (eh : chunk) : res el
   do sects <- (if negb (shnum =? 0) && (shentsize <? sizeof_shdr is64)
                then Err KCORRUPT (StHdrSize true shentsize)
                else read_shdrs alim f be is64 shnum shentsize shoff);
-  do strtab <- init_strtab alim f sects shstrndx;
+  do strtab <- init_strtab alim f shnum sects shstrndx;
   Ok {| et_be := be; et_is64 := is64; et_machine := machine;
         et_phnum := phnum; et_shnum := shnum;
         et_loads := fst segs; et_notes := snd segs; et_sects := sects; et_strtab := strtab |}.
@@ -248,7 +250,8 @@ Fixpoint walk_notes (alim : N) (f : file) (flen : N) (be : bool) (segs : list se
 Definition elf_probe (alim : N) (f : file) (flen : N) : res elf_result :=
   do eh <- get_chunk alim f 64 0;
   do t <- do_probe alim f eh;
-  if (N.of_nat (length (et_loads t)) =? 0) && (N.of_nat (length (et_sects t)) =? 0)
+  (* [!edp->num_load_segments && !edp->num_sections] *)
+  if (match et_loads t with [] => true | _ => false end) && (et_shnum t =? 0)
   then Err KNOTIMPL StNoContent
   else
     do ns <- walk_notes alim f flen (et_be t) (et_notes t);
